@@ -23,18 +23,20 @@ deriving DecidableEq, Repr
 structure DtdAttrDecl where
   default : DtdDefault
   value : Option Str := none
+  /-- the attribute type is NMTOKENS / IDREFS / ENTITIES (`ProcessAttributeTypes.update_restrictions`) -/
+  tokens : Bool := false
 deriving DecidableEq, Repr
 
 /-- `DtdMapper.build_attribute_restrictions` (types are strings or enumerations of strings) -/
 def dtdAttr (d : DtdAttrDecl) : GAttr :=
   match d.default with
-  | .required => { isAttribute := true, min := 1, max := 1, default := none, fixed := false, anyObj := false }
-  | .implied => { isAttribute := true, min := 0, max := 1, default := none, fixed := false, anyObj := false }
-  | .fixed => { isAttribute := true, min := 1, max := 1, default := d.value, fixed := true, anyObj := false }
+  | .required => { isAttribute := true, min := 1, max := 1, default := none, fixed := false, anyObj := false, tokens := d.tokens }
+  | .implied => { isAttribute := true, min := 0, max := 1, default := none, fixed := false, anyObj := false, tokens := d.tokens }
+  | .fixed => { isAttribute := true, min := 1, max := 1, default := d.value, fixed := true, anyObj := false, tokens := d.tokens }
   | .noneD =>
     match d.value with
-    | some v => { isAttribute := true, min := 1, max := 1, default := some v, fixed := false, anyObj := false }
-    | none => { isAttribute := true, min := 0, max := 1, default := none, fixed := false, anyObj := false }
+    | some v => { isAttribute := true, min := 1, max := 1, default := some v, fixed := false, anyObj := false, tokens := d.tokens }
+    | none => { isAttribute := true, min := 0, max := 1, default := none, fixed := false, anyObj := false, tokens := d.tokens }
 
 /-- the field generated for the declaration -/
 def dtdAttrField (d : DtdAttrDecl) : Option Field := fieldOf (sanitize (dtdAttr d))
